@@ -9,6 +9,6 @@ for d in sorted(glob.glob('/verif/seeded/*/')):
 tab='| seed | change | needs, to manifest | caught by | before? | strengthening made |\n|---|---|---|---|---|---|\n'+'\n'.join(rows)+'\n'
 p='/verif/DESIGN.md'
 s=open(p).read()
-s=re.sub(r'\| seed \|.*?\n(\|.*\n)+',lambda _ :tab,s,count=1,flags=re.S)
+s=re.sub(r'\| seed \|[^\n]*\n(\|[^\n]*\n)+',lambda _ :tab,s,count=1)
 open(p,'w').write(s)
 print(len(rows),'rows')
